@@ -29,12 +29,15 @@ func (s *CBORSerializer) Serialize(msg wamp.Message) ([]byte, error) {
 
 // Deserialize decodes a cbor payload into a Message.
 func (s *CBORSerializer) Deserialize(data []byte) (wamp.Message, error) {
-	var v []any
-	err := codec.NewDecoderBytes(data, ch).Decode(&v)
+	// Decode into an empty interface first: decoding directly into a slice
+	// would also accept a map (flattened into its keys and values).
+	var item any
+	err := codec.NewDecoderBytes(data, ch).Decode(&item)
 	if err != nil {
 		return nil, err
 	}
-	if len(v) == 0 {
+	v, ok := item.([]any)
+	if !ok || len(v) == 0 {
 		return nil, errors.New("invalid message")
 	}
 
